@@ -221,9 +221,9 @@ def gen_spec(base_seed, i, W):
         calls = []
         for j in range(rng.choice((1, 1, 2, 2, 3, 4) if procs.TIER == "quick" else (1, 2, 2, 3, 4, 6))):
             if rng.random() < p_dec:
-                x = rng.choice(dec[2:] if info["flood"] else dec)
-                if info["flood"] and j == 0 and rng.random() < 0.7:
-                    x = dec[t % 2]
+                x = rng.choice(dec)
+                if info["flood"] and rng.random() < (0.7 if j == 0 else 0.3):
+                    x = dec[rng.randrange(2)]      # several flood calls per run: several cache overflows
                 call = ("decode", x, rng.random() < 0.08, rng.random() < 0.3)
             else:
                 call = ("encode", rng.choice(smi), rng.random() < 0.6, rng.random() < 0.3)
@@ -243,11 +243,14 @@ def gen_spec(base_seed, i, W):
     gran = "native-line" if any(len(c[1]) > 4000 for calls in threads for c in calls) else None
     alone = [[W.alone_run(K, c, gran or "instr") for c in calls] for calls in threads]
     total = sum(s for calls in alone for _, s in calls)
-    kind = ("random", "window", "stall", "pct", "window", "stall", "random")[i % 7]     # stratified
+    kind = ("random", "window", "stall", "pct", "shared", "window", "stall", "shared")[i % 8]     # stratified
     policy = {"kind": kind, "gran": rng.choice(("instr", "instr", "line"))}
     if gran:
         policy["gran"] = gran
-    if kind == "stall":
+    if kind == "shared":
+        policy["q"] = rng.choice((0.15, 0.4, 0.8))
+        policy["p"] = rng.choice((0.0, 1 / 2000))
+    elif kind == "stall":
         policy["c"] = rng.choice((1 / 100, 1 / 300, 1 / 1000))   # about 2 / 0.7 / 0.2 expected stall opportunities per run
         policy["stalls"] = rng.choice((1, 1, 2, 3))
     elif kind == "pct":
@@ -258,7 +261,8 @@ def gen_spec(base_seed, i, W):
             policy["salt"] = rng.randrange(1 << 20)
         policy["p"] = rng.choice((0.25, 1 / 8, 1 / 32, 1 / 128, 1 / 512))
         # bound the expected number of context switches per run (they dominate the cost): ~4000
-        cap = (4000.0 if kind == "random" else 250.0) / max(total, 1)
+        budget_sw = 40000.0 if info["flood"] else 4000.0     # flood runs: the eviction race needs dense switching
+        cap = (budget_sw if kind == "random" else budget_sw / 16) / max(total, 1)
         policy["p"] = min(policy["p"], cap)
     probes = []
     seen = set()
@@ -324,7 +328,7 @@ def run_one(base_seed, i, want_sample=False):
                    **{"feature:" + f: 1 for f in spec["info"]["features"]},
                    "fault_failing_call_in_a_thread": sum(1 for r in rec["results"] for x in r if x and x[0] == "err"),
                    "double_miss_runs": 1 if rec["double_miss"] else 0,
-                   "fault_thread_stalled": rec["stalls_fired"],
+                   "fault_thread_stalled": rec["stalls_fired"], "shared_access_switches": rec["shared_switches"],
                    "double_augmenting_path_runs": 1 if rec["double_aug"] else 0},
         "oracle_queries": W.oracle.queries - q0, "oracle_hits": W.oracle.hits - h0,
         "fault_free": False, "violation": None,
